@@ -10,7 +10,7 @@ Import ListNotations.
 Local Open Scope Z_scope.
 Local Open Scope string_scope.
 
-Notation P := aes_prog.
+Local Notation P := aes_prog.
 
 Ltac mget_tac ::=
   cbn [append];
